@@ -5,6 +5,8 @@ import Gws.Model.ReaderStep
 equal the model's `Reader.headerCheck`, the control/data dispatch of `Reader.step` and the guards of
 `Reader.readControl` (the functions C03/C04/C13 are proved about).
 -/
+set_option linter.unusedSimpArgs false
+
 namespace TransEquiv
 
 /-- the Go error value an `End` of the read path stands for -/
@@ -34,7 +36,9 @@ theorem readMessage_header_eq (cfg : Reader.Cfg) (h : Frame.Hdr) (fh : List UInt
   generalize Frame.getMask h.b1 = mk
   generalize cfg.isServer = sv
   generalize cfg.pdEnabled = pd
-  simp only [u8_eq_1, u8_eq_2, Facts.opText, Facts.opBinary, Facts.dataFrameMaxOpcode,
+  have t1 : (1 : UInt8).toNat = 1 := rfl
+  have t2 : (2 : UInt8).toNat = 2 := rfl
+  simp only [bne, u8_beq, t1, t2, Facts.opText, Facts.opBinary, Facts.dataFrameMaxOpcode,
     Reader.tooLarge, Reader.protoErr, Facts.closeMessageTooLarge, Facts.closeProtocolError]
   by_cases hl : h.len < 0 ∨ h.len > cfg.readMax
   · have : (decide (h.len < 0) || decide (h.len > cfg.readMax)) = true := by simpa using hl
@@ -42,7 +46,10 @@ theorem readMessage_header_eq (cfg : Reader.Cfg) (h : Frame.Hdr) (fh : List UInt
   · have : (decide (h.len < 0) || decide (h.len > cfg.readMax)) = false := by simpa using hl
     simp only [this, hl]
     by_cases e1 : op.toNat = 1 <;> by_cases e2 : op.toNat = 2 <;> by_cases e3 : op.toNat ≤ 2 <;>
-      cases r1 <;> cases r2 <;> cases r3 <;> cases mk <;> cases sv <;> cases pd <;> simp [errOfEnd, e1, e2, e3] <;> omega
+      cases r1 <;> cases r2 <;> cases r3 <;> cases mk <;> cases sv <;> cases pd <;>
+      (first
+        | (simp [errOfEnd, e1, e2, e3]; done)
+        | (simp [errOfEnd, e1, e2, e3] <;> omega))
 
 /-- the guards of `readControl` in front of the payload read = the first two tests of `Reader.readControl` -/
 theorem readControl_guards_eq (fh : List UInt8) :
